@@ -7,6 +7,7 @@ for t in translate/t*.py; do
   [ -e "$t" ] && /venv/bin/python "$t"
 done
 cd coq
+{ echo "-Q theories Ford"; find theories -name '*.v' | sort; } > _CoqProject
 coq_makefile -f _CoqProject -o Makefile
 timeout 3000 make -j16
 if grep -rnE '\b(Admitted|admit|Axiom|Parameter|Conjecture)\b' theories --include=*.v | grep -v '^\S*:\s*[0-9]*:\s*(\*'; then
